@@ -419,12 +419,24 @@ def make_module(kind, n_in, n_out, dtype, seed):
         return m
     if kind == "user":
         return UserModule(n_in, n_out, dtype, seed)
+    if kind == "time_mix":
+        return TimeMix()
     if kind == "identity":
         assert n_in == n_out
         return torch.nn.Identity()
     if kind == "first":
         return FirstColumns(n_out)
     raise KeyError(kind)
+
+
+class TimeMix(Module):
+    """A module that MIXES the time dimension (like a Conv1d / GRU / attention layer over time):
+    out = sum_f x + sum_f mean_t x, with the mean over dim -2.  Fed one step at a time, (N, 1, F), as a
+    step-by-step hedger does, it is 2 sum_f x of that step (exact on dyadic inputs); fed a whole path it
+    would see the future - which a step-by-step hedger must never make it do."""
+
+    def forward(self, x):
+        return x.sum(-1, keepdim=True) + x.mean(dim=-2, keepdim=True).sum(-1, keepdim=True)
 
 
 class FirstColumns(Module):
